@@ -27,7 +27,7 @@ type zzMgr struct {
 }
 
 func (m *zzMgr) Name() string                                       { return "zz" }
-func (m *zzMgr) Namespace() walletdb.ReadWriteBucket                 { return nil }
+func (m *zzMgr) Namespace() walletdb.ReadWriteBucket                { return nil }
 func (m *zzMgr) CurrentVersion(walletdb.ReadBucket) (uint32, error) { m.reads++; return m.stored, nil }
 func (m *zzMgr) SetVersion(_ walletdb.ReadWriteBucket, v uint32) error {
 	if m.failSet {
@@ -39,7 +39,13 @@ func (m *zzMgr) SetVersion(_ walletdb.ReadWriteBucket, v uint32) error {
 }
 func (m *zzMgr) Versions() []Version { return m.table }
 
-func zzC19(n int) {
+func zzC19(n int) { zzC19R(n, 1) }
+
+// zzC19R runs `rounds` upgrades with the SAME manager and version table (the
+// real managers hand out a package-level table on every call), each from a
+// fresh symbolic stored version: the statement must hold for every one of
+// them, so a table damaged by an earlier call is noticed.
+func zzC19R(n, rounds int) {
 	var log []uint32
 	failAt := verifrt.U32("failAt")
 	nums := make([]uint32, n)
@@ -63,80 +69,98 @@ func zzC19(n int) {
 			}
 		}
 	}
-	stored0 := verifrt.U32("stored")
-	m := &zzMgr{table: table, stored: stored0, failSet: verifrt.Choice(2, "set-fails") == 1}
+	m := &zzMgr{table: table}
+	for round := 0; round < rounds; round++ {
+		stored0 := verifrt.U32("stored")
+		log = nil
+		m.stored, m.sets, m.failSet = stored0, nil, verifrt.Choice(2, "set-fails") == 1
+		if round > 0 {
+			verifrt.Reach("second-upgrade-with-the-same-table")
+		}
 
-	err := Upgrade(m)
+		err := Upgrade(m)
 
-	// the statement, evaluated without branching
-	var max uint32
-	for k := 0; k < n; k++ {
-		max = verifrt.IteU32(nums[k] > max, nums[k], max)
-	}
-	// applies_k: migration k is pending (number above the stored version)
-	pending := 0
-	var expectRun int64
-	failing := false // a pending non-nil migration carries the failing number
-	for k := 0; k < n; k++ {
-		p := nums[k] > stored0
-		if nonNil[k] {
-			// it runs unless an earlier (smaller-numbered) pending migration failed
-			blocked := false
-			for j := 0; j < n; j++ {
-				if nonNil[j] {
-					blocked = verifrt.Or(blocked, verifrt.And(verifrt.And(nums[j] > stored0, nums[j] < nums[k]), nums[j] == failAt))
+		// the statement, evaluated without branching
+		var max uint32
+		for k := 0; k < n; k++ {
+			max = verifrt.IteU32(nums[k] > max, nums[k], max)
+		}
+		// applies_k: migration k is pending (number above the stored version)
+		pending := 0
+		var expectRun int64
+		failing := false // a pending non-nil migration carries the failing number
+		for k := 0; k < n; k++ {
+			p := nums[k] > stored0
+			if nonNil[k] {
+				// it runs unless an earlier (smaller-numbered) pending migration failed
+				blocked := false
+				for j := 0; j < n; j++ {
+					if nonNil[j] {
+						blocked = verifrt.Or(blocked, verifrt.And(verifrt.And(nums[j] > stored0, nums[j] < nums[k]), nums[j] == failAt))
+					}
 				}
+				runs := verifrt.And(p, verifrt.Not(blocked))
+				expectRun += verifrt.IteI64(runs, 1, 0)
+				failing = verifrt.Or(failing, verifrt.And(p, nums[k] == failAt))
 			}
-			runs := verifrt.And(p, verifrt.Not(blocked))
-			expectRun += verifrt.IteI64(runs, 1, 0)
-			failing = verifrt.Or(failing, verifrt.And(p, nums[k] == failAt))
+			_ = pending
 		}
-		_ = pending
-	}
-	if n == 0 {
-		verifrt.Assert(err == nil && len(log) == 0 && len(m.sets) == 0, "c19-empty-table")
-		return
-	}
-	reversion := stored0 > max
-	verifrt.Assert((err == ErrReversion) == reversion, "c19-newer-version-refused")
-	if err == ErrReversion {
-		verifrt.Assert(len(log) == 0 && len(m.sets) == 0 && m.stored == stored0, "c19-refused-untouched")
-		verifrt.Reach("reversion")
-		return
-	}
-	// exactly the pending non-nil migrations ran (up to a failure), once each, ascending
-	verifrt.Assert(int64(len(log)) == expectRun, "c19-exactly-pending-run")
-	for k := range log {
-		verifrt.Assert(log[k] > stored0, "c19-only-above-stored")
-		if k > 0 {
-			verifrt.Assert(log[k-1] < log[k], "c19-ascending-once")
+		if n == 0 {
+			verifrt.Assert(err == nil && len(log) == 0 && len(m.sets) == 0, "c19-empty-table")
+			return
 		}
-		in := false
+		// the declared table is still the declared set of versions (it may have
+		// been sorted in place)
 		for j := 0; j < n; j++ {
-			in = verifrt.Or(in, verifrt.And(nonNil[j], log[k] == nums[j]))
+			in := false
+			for k := 0; k < n; k++ {
+				in = verifrt.Or(in, m.table[k].Number == nums[j])
+			}
+			verifrt.Assert(in, "c19-version-table-still-holds-every-declared-version")
 		}
-		verifrt.Assert(in, "c19-from-table")
-	}
-	if err == nil {
-		verifrt.Assert(verifrt.Not(failing), "c19-failure-reported")
-		verifrt.Assert(m.stored == max || (stored0 == max && len(m.sets) == 0), "c19-latest-recorded")
-		verifrt.Assert(len(m.sets) <= 1, "c19-version-set-once")
-		if len(log) > 1 {
-			verifrt.Reach("two-migrations")
+		reversion := stored0 > max
+		verifrt.Assert((err == ErrReversion) == reversion, "c19-newer-version-refused")
+		if err == ErrReversion {
+			verifrt.Assert(len(log) == 0 && len(m.sets) == 0 && m.stored == stored0, "c19-refused-untouched")
+			verifrt.Reach("reversion")
+			continue
 		}
-		verifrt.Reach("upgraded")
-	} else {
-		verifrt.Assert(m.stored == stored0 && len(m.sets) == 0, "c19-failure-leaves-version")
-		verifrt.Assert(verifrt.Or(failing, m.failSet), "c19-error-only-on-failure")
-		if err == zzErrMig {
-			verifrt.Assert(len(log) > 0 && log[len(log)-1] == failAt, "c19-stops-at-failure")
-			verifrt.Reach("migration-failed")
+		// exactly the pending non-nil migrations ran (up to a failure), once each, ascending
+		verifrt.Assert(int64(len(log)) == expectRun, "c19-exactly-pending-run")
+		for k := range log {
+			verifrt.Assert(log[k] > stored0, "c19-only-above-stored")
+			if k > 0 {
+				verifrt.Assert(log[k-1] < log[k], "c19-ascending-once")
+			}
+			in := false
+			for j := 0; j < n; j++ {
+				in = verifrt.Or(in, verifrt.And(nonNil[j], log[k] == nums[j]))
+			}
+			verifrt.Assert(in, "c19-from-table")
+		}
+		if err == nil {
+			verifrt.Assert(verifrt.Not(failing), "c19-failure-reported")
+			verifrt.Assert(m.stored == max || (stored0 == max && len(m.sets) == 0), "c19-latest-recorded")
+			verifrt.Assert(len(m.sets) <= 1, "c19-version-set-once")
+			if len(log) > 1 {
+				verifrt.Reach("two-migrations")
+			}
+			verifrt.Reach("upgraded")
+		} else {
+			verifrt.Assert(m.stored == stored0 && len(m.sets) == 0, "c19-failure-leaves-version")
+			verifrt.Assert(verifrt.Or(failing, m.failSet), "c19-error-only-on-failure")
+			if err == zzErrMig {
+				verifrt.Assert(len(log) > 0 && log[len(log)-1] == failAt, "c19-stops-at-failure")
+				verifrt.Reach("migration-failed")
+			}
 		}
 	}
 	verifrt.Reach("c19-end")
 }
 
-func ZzC19N1() { zzC19(1) }
-func ZzC19N2() { zzC19(2) }
-func ZzC19N3() { zzC19(3) }
-func ZzC19N4() { zzC19(4) }
+func ZzC19N1()   { zzC19(1) }
+func ZzC19N2()   { zzC19(2) }
+func ZzC19N3()   { zzC19(3) }
+func ZzC19N4()   { zzC19(4) }
+func ZzC19N2R2() { zzC19R(2, 2) }
+func ZzC19N3R2() { zzC19R(3, 2) }
